@@ -246,6 +246,8 @@ func vfC05Unit(e *vfEnv, r *vfResult, idx int, local, remote uint64, agentContro
 	kept := after.Controlling == agentControlling
 	wit := map[string]any{"local": fmt.Sprint(local), "remote": fmt.Sprint(remote), "agent_controlling": agentControlling}
 	cls := fmt.Sprintf("%s/keep=%v/after-selection=%v", role, wantKeep, afterSelection)
+	r.sample(map[string]any{"kind": "same-role request", "agent_role": role, "local_tiebreaker": fmt.Sprint(local), "remote_tiebreaker": fmt.Sprint(remote),
+		"after_selection": afterSelection, "expected_keep_and_487": wantKeep, "observed_kept": kept, "observed_487": gotErr487})
 	r.set("c05_cases", cls)
 	if gotSuccess {
 		s.viol("C05", "conflict-answered-with-success", fmt.Sprintf("same-role request (agent %s, local %d, remote %d) was answered with a success response", role, local, remote), wit)
@@ -361,7 +363,7 @@ func vfC05System(e *vfEnv, r *vfResult, idx int) {
 		return
 	}
 	r.count("system_converged", 1)
-	if idx < 2 {
+	if idx < 1000002 {
 		r.sample(map[string]any{"idx": idx, "kind": "same-role start", "both_controlling": bothControlling, "tie_a": fmt.Sprint(ta), "tie_b": fmt.Sprint(tb), "a_controlling_at_end": sa.Controlling, "steps": s.stepN})
 	}
 }
